@@ -305,6 +305,13 @@ Definition ex_task (i t : nat) : prog Z :=
           (fun y : Z => Write (1%Z, (2 * Z.of_nat i)%Z) (2 * y)%Z Done))).
 Definition ex_m0 : mem Z := fun l : loc => (100 * fst l + snd l)%Z.
 
+(* tactile batching as coded: batch = ceil(ntaxel / nthread), ntask = ceil(ntaxel / batch); the batches
+   [t*batch, min((t+1)*batch, ntaxel)) must cover every taxel: checked on the implementation's numbers
+   (ntaxel, batch, ntask, end_taxel of the last task) *)
+Definition ceil_div (a b : Z) : Z := ((a + b - 1) / b)%Z.
+Definition tactile_cover_ok (ntaxel batch ntask last_end : Z) : bool :=
+  ((0 <? batch) && (ntaxel <=? ntask * batch) && ((ntask - 1) * batch <? ntaxel) && (last_end =? ntaxel))%Z.
+
 (* one record of the footprint correspondence: kind 0 = island site, 1 = collision site, 2 = tactile *)
 Definition site_case_ok (c : Z * list Z * list (list Z) * list (Z * Z * Z * Z * Z)) : bool :=
   let '(kind, k, ls, ws) := c in
@@ -312,7 +319,7 @@ Definition site_case_ok (c : Z * list Z * list (list Z) * list (Z * Z * Z * Z * 
   let K := fun i : nat => nth i k 0%Z in
   if (kind =? 0)%Z then island_case_ok (L 0%nat) (L 1%nat) (L 2%nat) (L 3%nat) (L 4%nat) (L 5%nat) (L 6%nat) (K 0%nat) (K 1%nat) ws
   else if (kind =? 1)%Z then writes_ok (collision_site (K 0%nat) (K 1%nat) (K 2%nat) (K 3%nat) (L 0%nat)) ws
-  else if (kind =? 2)%Z then writes_ok (tactile_site (K 0%nat) (K 1%nat)) ws
+  else if (kind =? 2)%Z then writes_ok (tactile_site (K 0%nat) (K 1%nat)) ws && tactile_cover_ok (K 0%nat) (K 1%nat) (K 2%nat) (K 3%nat)
   else false.
 
 (* ---- the dense-Jacobian PGS island task AS CODED (engine_solver.c residual(): mju_dot over the whole
